@@ -7,9 +7,8 @@ foreign pointers) and EVERY configuration `JitAllocator_new_impl` can produce.  
 the `used` and `stop` bit vectors, `area_used`, the kFlagEmpty / kFlagIncremental flags and the incremental-mode cache to the table of
 spans the caller holds; the proof is by induction over the history (`Inv.step`, Lemmas/JitAllocStep.lean).
 
-Not proved here (only tested by the correspondence + monitor, see notes/C09.md): contents / fill pattern of memory, the global
-`statistics()` sums over the pools (the per-pool counters are proved exact), and the refinement "the monitor of Spec/JitAlloc.lean
-accepts every model run" as one theorem.
+Second part (Props/C09Refine.lean): memory contents and fill pattern, the `statistics()` sums, the refinement "the monitor of
+Spec/JitAlloc.lean accepts every model run" as one theorem, and the rx / rw views of dual-mapped blocks.
 -/
 import AsmjitVerif.Lemmas.JitAllocRetention
 import AsmjitVerif.Spec.JitAlloc
